@@ -154,6 +154,29 @@ def access_jobs(tier, seed):
     return jobs
 
 
+def lean_lemma(report):
+    """re-check the pigeonhole side lemma with the installed Lean + Mathlib; absent / failing Lean => undecided, never a violation"""
+    import subprocess
+    import shutil
+    import time
+    import os
+    from vf.core import VERIF
+    src = os.path.join(VERIF, "lemmas", "Pigeonhole.lean")
+    t0 = time.time()
+    if not shutil.which("lean"):
+        st, detail = "unknown", "lean not on PATH"
+    else:
+        try:
+            p = subprocess.run(["lean", src], capture_output=True, text=True, timeout=900)
+            bad = p.returncode != 0 or "error" in p.stdout or "sorry" in p.stdout
+            st, detail = ("unknown" if bad else "discharged"), (p.stdout + p.stderr)[-400:]
+        except subprocess.TimeoutExpired:
+            st, detail = "unknown", "lean timed out"
+    report.ob(Ob(id="O10.2/lemma/scan-position-below-cardinality", function="lemmas/Pigeonhole.lean (bound clause of the slot-numbering contract)", kind="P", status=st,
+                 backend="lean 4 kernel + Mathlib", ms=(time.time() - t0) * 1000,
+                 detail="if every index below m is the number of an element of T other than cur (cur in T) then m + 1 <= |T|  " + detail))
+
+
 def limits(report):
     from vf.core import use_repo
     use_repo()
@@ -205,11 +228,12 @@ def run(report: Report, tier, seed):
     report.trust("spec/avm.py (load/store/loads/stores, frame ops)")
     report.assume("region contract (pyvc) on assignScratchSlotsToSubroutines from its entry up to the loop that writes the numbers into the ops: for every finite set of slots the numbering is total, "
                   "the identity on requested ids, injective, non-negative, and automatic numbers fill the gaps in ascending id order; duplicate requested ids are rejected",
-                  "NOT proved: every number < 256 (pigeonhole over the set's cardinality) - bounded stand-in with 252..300 live variables; that collectScratchSlots returns every slot of every op "
-                  "(summarised: allSlots is an arbitrary finite set); the write-back loop (op.assignSlot)",
+                  "every number < 256: from the > 256 rejection and the pigeonhole lemma lemmas/Pigeonhole.lean (Lean 4 + Mathlib, re-checked here), whose hypothesis is discharged from ghost witnesses",
+                  "NOT proved: that collectScratchSlots returns every slot of every op (summarised: allSlots is an arbitrary finite set); the write-back loop (op.assignSlot) - bounded stand-in with up to 300 live variables",
                   "summaries under a syntactic guard: sorted(allSlots, key=lambda slot: slot.id) = duplicate-free enumeration in non-decreasing id order; validateSlots called with slotsInUse=global_slots",
                   "A5 L-cell: injective assignment + AVM load/store semantics give cell behaviour")
     run_contracts(report, [("contracts.c10_slots", "ScratchSlotInit", "O10.1"), ("contracts.c10_assign", "AssignSlots", "O10.2")])
+    lean_lemma(report)
     limits(report)
     sizes = [1, 2, 17, 100, 200, 252, 253, 260, 300] if tier == "quick" else list(range(1, 30)) + [50, 100, 150, 200, 240, 250, 251, 252, 253, 254, 255, 256, 257, 260, 300]
     jobs = []
